@@ -212,3 +212,141 @@ package rux
 //@   ensures status_pending: code > 0 ==> c.writer.status == code
 //@   ensures status_sent_with_message: old(c.writer.length) == -1 && len(msg) > 0 && code > 0 ==> hdrStatus(c.writer.Writer) == code
 //@   ensures committed_status_kept: old(c.writer.length) >= 0 ==> hdrStatus(c.writer.Writer) == old(hdrStatus(c.writer.Writer))
+
+// ---------------------------------------------------------------------------
+// Route cache (C14, C03): container/list as a rank model, sync.RWMutex as a ghost lock state.
+//
+// lmem(l, e): e is an element of list l.   rank(e): recency stamp (greater = nearer the front).
+// lclock(l): greatest stamp handed out.    ln(l): number of elements.
+// held(m): 0 = unlocked, 1 = read-locked, 2 = write-locked (by the current goroutine).
+// guard(l): the lock that protects list l (nil: unprotected).
+//@ ghost lmem(ref, ref) bool
+//@ ghost rank(ref) int
+//@ ghost lclock(ref) int
+//@ ghost ln(ref) int
+//@ ghost held(ref) int
+//@ ghost guard(ref) ref
+//@ ghost lback(ref) ref
+// lback(l): the element at the back of l (least recently stamped), when l is not empty.
+//@ spec ranksOK(l *list.List) bool = forall x ref :: lmem(l, x) ==> rank(x) <= lclock(l)
+//@ spec backOK(l *list.List) bool = ln(l) > 0 ==> lback(l) != nil && lmem(l, lback(l)) && (forall x ref :: lmem(l, x) ==> rank(lback(l)) <= rank(x))
+//
+//@ extern container/list.New() (l)
+//@   modifies lmem(_, _), lclock(_), ln(_), guard(_)
+//@   ensures l != nil && fresh(l) && ln(l) == 0 && lclock(l) == 0 && guard(l) == nil
+//@   ensures forall x ref :: !lmem(l, x)
+//@   ensures forall m ref, x ref :: m != l ==> lmem(m, x) == old(lmem(m, x))
+//@   ensures forall m ref :: m != l ==> lclock(m) == old(lclock(m)) && ln(m) == old(ln(m)) && guard(m) == old(guard(m))
+//@ extern (*container/list.List).PushFront(l, v) (e)
+//@   requires l != nil
+//@   requires[C03] write_locked: guard(l) != nil ==> held(guard(l)) == 2
+//@   modifies lmem(l, _), rank(_), lclock(l), ln(l), lback(l)
+//@   ensures e != nil && fresh(e) && e.Value == v
+//@   ensures lback(l) == (old(ln(l)) > 0 ? old(lback(l)) : e)
+//@   ensures old(backOK(l)) && old(ranksOK(l)) ==> backOK(l)
+//@   ensures forall x ref :: lmem(l, x) == (old(lmem(l, x)) || x == e)
+//@   ensures !old(lmem(l, e))
+//@   ensures rank(e) == old(lclock(l)) + 1 && lclock(l) == old(lclock(l)) + 1 && ln(l) == old(ln(l)) + 1
+//@   ensures forall x ref :: x != e ==> rank(x) == old(rank(x))
+//@ extern (*container/list.List).MoveToFront(l, e)
+//@   requires l != nil && lmem(l, e)
+//@   requires[C03] write_locked: guard(l) != nil ==> held(guard(l)) == 2
+//@   modifies rank(e), lclock(l), lback(l)
+//@   ensures rank(e) == old(lclock(l)) + 1 && lclock(l) == old(lclock(l)) + 1
+//@   ensures old(backOK(l)) ==> backOK(l)
+//@ extern (*container/list.List).Remove(l, e) (v)
+//@   requires l != nil && lmem(l, e)
+//@   requires[C03] write_locked: guard(l) != nil ==> held(guard(l)) == 2
+//@   modifies lmem(l, e), ln(l), lback(l)
+//@   ensures !lmem(l, e) && ln(l) == old(ln(l)) - 1 && ln(l) >= 0
+//@   ensures old(backOK(l)) ==> backOK(l)
+//@ extern (*container/list.List).Back(l) (e)
+//@   requires l != nil
+//@   requires[C03] locked: guard(l) != nil ==> held(guard(l)) >= 1
+//@   pure
+//@   ensures ln(l) <= 0 ==> e == nil
+//@   ensures ln(l) > 0 ==> e != nil && lmem(l, e) && (forall x ref :: lmem(l, x) ==> rank(e) <= rank(x))
+//@   ensures ln(l) > 0 && backOK(l) ==> e == lback(l)
+//@ extern (*container/list.List).Len(l) (n)
+//@   requires l != nil
+//@   requires[C03] locked: guard(l) != nil ==> held(guard(l)) >= 1
+//@   pure
+//@   ensures n == ln(l)
+//
+//@ extern (*sync.RWMutex).Lock(rw)
+//@   requires rw != nil
+//@   modifies held(rw)
+//@   ensures held(rw) == 2
+//@ extern (*sync.RWMutex).Unlock(rw)
+//@   requires rw != nil && held(rw) == 2
+//@   modifies held(rw)
+//@   ensures held(rw) == 0
+//@ extern (*sync.RWMutex).RLock(rw)
+//@   requires rw != nil
+//@   modifies held(rw)
+//@   ensures held(rw) == 1
+//@ extern (*sync.RWMutex).RUnlock(rw)
+//@   requires rw != nil && held(rw) == 1
+//@   modifies held(rw)
+//@   ensures held(rw) == 0
+//
+//@ spec node(e *list.Element) *cacheNode = cast(e.Value, *cacheNode)
+//@ spec view(c *cachedRoutes, k string) *Route = node(c.hashMap[k]).Value
+//@ spec lruKey(c *cachedRoutes, k string) bool = k in c.hashMap && (forall x *list.Element :: lmem(c.list, x) ==> rank(c.hashMap[k]) <= rank(x))
+//@ spec mostRecent(c *cachedRoutes, k string) bool = forall x *list.Element :: lmem(c.list, x) && x != c.hashMap[k] ==> rank(x) < rank(c.hashMap[k])
+//@ spec cacheInv(c *cachedRoutes) bool = c.list != nil && c.lock != nil && c.hashMap != nil && guard(c.list) == c.lock
+//@     && (forall k string :: k in c.hashMap ==> c.hashMap[k] != nil && lmem(c.list, c.hashMap[k]) && hastype(c.hashMap[k].Value, *cacheNode)
+//@             && node(c.hashMap[k]) != nil && node(c.hashMap[k]).Key == k)
+//@     && (forall e *list.Element :: lmem(c.list, e) ==> e != nil && hastype(e.Value, *cacheNode) && node(e) != nil
+//@             && node(e).Key in c.hashMap && c.hashMap[node(e).Key] == e && rank(e) <= lclock(c.list))
+//@     && (forall e1 *list.Element, e2 *list.Element :: lmem(c.list, e1) && lmem(c.list, e2) && e1 != e2 ==> rank(e1) != rank(e2))
+//@     && ln(c.list) == len(c.hashMap) && 0 <= ln(c.list) && ln(c.list) <= max(c.size, 0) && backOK(c.list)
+
+//
+//@ func NewCachedRoutes [C14]
+//@   modifies lmem(_, _), lclock(_), ln(_), guard(_)
+//@   ghostset guard(result.list) = result.lock
+//@   ensures inv: size >= 0 ==> cacheInv(result)
+//@   ensures empty: len(result.hashMap) == 0 && result.size == size && fresh(result) && held(result.lock) == 0
+//
+//@ func (*cachedRoutes).Len [C14, C03]
+//@   requires cacheInv(c) && held(c.lock) == 0
+//@   modifies held(c.lock)
+//@   ensures result == len(c.hashMap) && result <= max(c.size, 0) && held(c.lock) == 0
+//
+//@ func (*cachedRoutes).Set [C14, C03]
+//@   requires cacheInv(c) && held(c.lock) == 0
+//@   modifies held(c.lock), entries(c.hashMap), lmem(c.list, _), rank(_), lclock(c.list), ln(c.list), lback(c.list), cacheNode.Value
+//@   ensures inv: cacheInv(c) && held(c.lock) == 0 && result
+//@   ensures replace_existing: old(k in c.hashMap) ==> (forall j string :: (j in c.hashMap) == old(j in c.hashMap))
+//@       && view(c, k) == v && (forall j string :: j != k && j in c.hashMap ==> view(c, j) == old(view(c, j)))
+//@   ensures insert_with_room: !old(k in c.hashMap) && old(len(c.hashMap)) < c.size ==> (forall j string :: (j in c.hashMap) == (old(j in c.hashMap) || j == k))
+//@       && view(c, k) == v && (forall j string :: j != k && j in c.hashMap ==> view(c, j) == old(view(c, j)))
+//@   ensures insert_evicts_lru_only: !old(k in c.hashMap) && old(len(c.hashMap)) >= c.size && c.size >= 1
+//@       ==> (forall j string :: (j in c.hashMap) == ((old(j in c.hashMap) && !old(lruKey(c, j))) || j == k))
+//@       && view(c, k) == v && (forall j string :: j != k && j in c.hashMap ==> view(c, j) == old(view(c, j)))
+//@   ensures zero_capacity: c.size <= 0 ==> len(c.hashMap) == 0
+//@   ensures bounded: len(c.hashMap) <= max(c.size, 0)
+//@   ensures stored_is_most_recent: c.size >= 1 ==> k in c.hashMap && mostRecent(c, k)
+//@   ensures others_keep_order: forall x *list.Element :: lmem(c.list, x) && (!(k in c.hashMap) || x != c.hashMap[k]) ==> rank(x) == old(rank(x))
+//
+//@ func (*cachedRoutes).Get [C14, C03]
+//@   requires cacheInv(c) && held(c.lock) == 0
+//@   modifies held(c.lock), rank(_), lclock(c.list), lback(c.list)
+//@   ensures inv: cacheInv(c) && held(c.lock) == 0
+//@   ensures lookup: result1 == (k in c.hashMap) && (result1 ==> result0 == view(c, k)) && (!result1 ==> result0 == nil)
+//@   ensures read_is_most_recent: result1 ==> mostRecent(c, k)
+//@   ensures others_keep_order: forall x *list.Element :: lmem(c.list, x) && (!(k in c.hashMap) || x != c.hashMap[k]) ==> rank(x) == old(rank(x))
+//
+//@ func (*cachedRoutes).Delete [C14, C03]
+//@   requires cacheInv(c) && held(c.lock) == 0
+//@   modifies held(c.lock), entries(c.hashMap), lmem(c.list, _), ln(c.list), lback(c.list)
+//@   ensures inv: cacheInv(c) && held(c.lock) == 0
+//@   ensures removes_only_k: result == old(k in c.hashMap) && (forall j string :: (j in c.hashMap) == (old(j in c.hashMap) && j != k))
+//@   ensures others_untouched: forall j string :: j in c.hashMap ==> view(c, j) == old(view(c, j))
+//
+//@ func (*cachedRoutes).Has [C14, C03]
+//@   requires cacheInv(c) && held(c.lock) == 0
+//@   modifies held(c.lock), rank(_), lclock(c.list), lback(c.list)
+//@   ensures inv: cacheInv(c) && held(c.lock) == 0
+//@   ensures result == (k in c.hashMap)
